@@ -3,7 +3,8 @@
 
 For a fixed list of small functions and conditions of /repo/src (capacity tests, expiry
 tests, the three comparisons of TinyLFU admission, the housekeeping trigger, the sketch's
-index and sizing arithmetic, the builder's duration limit) this tool parses the Rust text
+index and sizing arithmetic, the builder's duration limit, and the arithmetic of every counter
+update: group Counters, compound assignments read as the new value) this tool parses the Rust text
 that is there *now* and writes Lean definitions into lean/MiniMoka/MiniMoka/Gen/Logic/*.lean.
 `Lemmas/Agree/*.lean` then prove that the hand-written model uses exactly these functions
 (`theorem …_agrees`), so that a change of an operator, operand or constant in the code changes
@@ -562,6 +563,10 @@ class Tr:
             if self.d != "nat":
                 raise Unsupported("saturating_sub on UInt64")
             return f"({a} - {self.expr(args[0])})"
+        if name == "saturating_add":
+            if self.d != "nat":
+                raise Unsupported("saturating_add on UInt64")
+            return f"({a} + {self.expr(args[0])})"       # u64, sums assumed below 2^64 (DESIGN §4)
         if name == "saturating_mul":
             return f"(min ({a} * {self.expr(args[0])}) 4294967295)"   # on u32
         if name in ("max", "min"):
@@ -822,6 +827,137 @@ SITES = [
      [("same_info", B), ("lmv", O), ("ts", N)], B, "nat",
      [("std::ptr::eq(&**v.entry_info(), info)", "same_info"), ("v.last_modified()", "lmv")],
      r"remove_if\(&key, \|_, v\| \{ (?P<e>if let Some\(lm\) = .*? else \{ false \}) \}\)"),
+    # counter arithmetic: every update of entry_count / weighted_size and of the run-local sums
+    # that feed them (where D1-D4, D8 and D10 lived). "assign" = `l op= e;` read as `l op (e)`.
+    ("Counters", "unsync_total_add", "unsync/cache.rs", "saturating_add_to_total_weight", 0, "expr",
+     [("total", N), ("weight", N)], N, "nat", [], r"\*total = (?P<e>[^;]+);"),
+    ("Counters", "unsync_total_sub", "unsync/cache.rs", "saturating_sub_from_total_weight", 0, "expr",
+     [("total", N), ("weight", N)], N, "nat", [], r"\*total = (?P<e>[^;]+);"),
+    ("Counters", "unsync_invalidate_ec", "unsync/cache.rs", "invalidate", 0, "assign",
+     [("entry_count", N)], N, "nat", [], r"self\.(?P<l>entry_count) (?P<op>[-+])= (?P<e>[^;]+);"),
+    ("Counters", "unsync_invalidate_sub_arg", "unsync/cache.rs", "invalidate", 0, "expr",
+     [("weight", N)], N, "nat", [], r"self\.saturating_sub_from_total_weight\((?P<e>[^;]+)\);"),
+    ("Counters", "unsync_invall_ec", "unsync/cache.rs", "invalidate_all", 0, "expr",
+     [], N, "nat", [], r"self\.entry_count = (?P<e>[^;]+);"),
+    ("Counters", "unsync_invall_ws", "unsync/cache.rs", "invalidate_all", 0, "expr",
+     [], N, "nat", [], r"self\.weighted_size = (?P<e>[^;]+);"),
+    ("Counters", "unsync_invif_acc", "unsync/cache.rs", "invalidate_entries_if", 0, "expr",
+     [("invalidated", N), ("weight", N)], N, "nat", [], r"(?<!mut )invalidated = (?P<e>[^;]+);"),
+    ("Counters", "unsync_invif_count", "unsync/cache.rs", "invalidate_entries_if", 0, "assign",
+     [("invalidated_count", N)], N, "nat", [], r"(?P<l>invalidated_count) (?P<op>[-+])= (?P<e>[^;]+);"),
+    ("Counters", "unsync_invif_ec", "unsync/cache.rs", "invalidate_entries_if", 0, "assign",
+     [("entry_count", N), ("invalidated_count", N)], N, "nat", [],
+     r"self\.(?P<l>entry_count) (?P<op>[-+])= (?P<e>[^;]+);"),
+    ("Counters", "unsync_invif_sub_arg", "unsync/cache.rs", "invalidate_entries_if", 0, "expr",
+     [("invalidated", N)], N, "nat", [], r"self\.saturating_sub_from_total_weight\((?P<e>[^;]+)\);"),
+    ("Counters", "unsync_insert_ec", "unsync/cache.rs", "handle_insert", 0, "assign",
+     [("entry_count", N)], N, "nat", [],
+     r"if has_free_space \{.*?self\.(?P<l>entry_count) (?P<op>[-+])= (?P<e>[^;]+);.*?return;"),
+    ("Counters", "unsync_insert_add_arg", "unsync/cache.rs", "handle_insert", 0, "expr",
+     [("policy_weight", N)], N, "nat", [],
+     r"if has_free_space \{.*?self\.saturating_add_to_total_weight\((?P<e>[^;]+)\);.*?return;"),
+    ("Counters", "unsync_admit_victim_ec", "unsync/cache.rs", "handle_insert", 0, "assign",
+     [("entry_count", N)], N, "nat", [],
+     r"for victim in victim_nodes \{.*?self\.(?P<l>entry_count) (?P<op>[-+])= (?P<e>[^;]+); \}"),
+    ("Counters", "unsync_admit_ec", "unsync/cache.rs", "handle_insert", 0, "assign",
+     [("entry_count", N)], N, "nat", [],
+     r"AdmissionResult::Admitted.*?for victim in victim_nodes.*?\} self\.(?P<l>entry_count) (?P<op>[-+])= (?P<e>[^;]+); Self::saturating"),
+    ("Counters", "unsync_admit_sub_arg", "unsync/cache.rs", "handle_insert", 0, "expr",
+     [("victims_weight", N), ("policy_weight", N)], N, "nat", [],
+     r"Self::saturating_sub_from_total_weight\(self, (?P<e>[^;]+)\);"),
+    ("Counters", "unsync_admit_add_arg", "unsync/cache.rs", "handle_insert", 0, "expr",
+     [("victims_weight", N), ("policy_weight", N)], N, "nat", [],
+     r"Self::saturating_add_to_total_weight\(self, (?P<e>[^;]+)\);"),
+    ("Counters", "unsync_update_sub_arg", "unsync/cache.rs", "handle_update", 0, "expr",
+     [("old_policy_weight", N), ("policy_weight", N)], N, "nat", [],
+     r"self\.saturating_sub_from_total_weight\((?P<e>[^;]+)\);"),
+    ("Counters", "unsync_update_add_arg", "unsync/cache.rs", "handle_update", 0, "expr",
+     [("old_policy_weight", N), ("policy_weight", N)], N, "nat", [],
+     r"self\.saturating_add_to_total_weight\((?P<e>[^;]+)\);"),
+    ("Counters", "unsync_expire_wo_ec", "unsync/cache.rs", "evict_expired", 0, "assign",
+     [("entry_count", N), ("count", N)], N, "nat", [],
+     r"remove_expired_wo\([^;]*; self\.(?P<l>entry_count) (?P<op>[-+])= (?P<e>[^;]+);"),
+    ("Counters", "unsync_expire_wo_sub_arg", "unsync/cache.rs", "evict_expired", 0, "expr",
+     [("count", N), ("weight", N)], N, "nat", [],
+     r"remove_expired_wo\([^;]*; self\.entry_count [^;]*; self\.saturating_sub_from_total_weight\((?P<e>[^;]+)\);"),
+    ("Counters", "unsync_expire_ao_ec", "unsync/cache.rs", "evict_expired", 0, "assign",
+     [("entry_count", N), ("count1", N), ("count2", N), ("count3", N)], N, "nat", [],
+     r"rm_expired_ao\(\"protected\"[^;]*; self\.(?P<l>entry_count) (?P<op>[-+])= (?P<e>[^;]+);"),
+    ("Counters", "unsync_expire_ao_sub_arg1", "unsync/cache.rs", "evict_expired", 0, "expr",
+     [("weight1", N), ("weight2", N), ("weight3", N)], N, "nat", [],
+     r"count1 \+ count2 \+ count3; self\.saturating_sub_from_total_weight\((?P<e>[^;]+)\);"),
+    ("Counters", "unsync_expire_ao_sub_arg2", "unsync/cache.rs", "evict_expired", 0, "expr",
+     [("weight1", N), ("weight2", N), ("weight3", N)], N, "nat", [],
+     r"count1 \+ count2 \+ count3; self\.saturating_sub_from_total_weight\([^;]+\); self\.saturating_sub_from_total_weight\((?P<e>[^;]+)\);"),
+    ("Counters", "unsync_expire_ao_sub_arg3", "unsync/cache.rs", "evict_expired", 0, "expr",
+     [("weight1", N), ("weight2", N), ("weight3", N)], N, "nat", [],
+     r"count1 \+ count2 \+ count3; self\.saturating_sub_from_total_weight\([^;]+\); self\.saturating_sub_from_total_weight\([^;]+\); self\.saturating_sub_from_total_weight\((?P<e>[^;]+)\);"),
+    ("Counters", "unsync_rm_ao_count", "unsync/cache.rs", "remove_expired_ao", 0, "assign",
+     [("evicted_entry_count", N)], N, "nat", [], r"(?P<l>evicted_entry_count) (?P<op>[-+])= (?P<e>[^;]+);"),
+    ("Counters", "unsync_rm_ao_acc", "unsync/cache.rs", "remove_expired_ao", 0, "expr",
+     [("evicted_policy_weight", N), ("weight", N)], N, "nat", [],
+     r"(?<!mut )evicted_policy_weight = (?P<e>[^;]+);"),
+    ("Counters", "unsync_rm_wo_count", "unsync/cache.rs", "remove_expired_wo", 0, "assign",
+     [("evicted_entry_count", N)], N, "nat", [], r"(?P<l>evicted_entry_count) (?P<op>[-+])= (?P<e>[^;]+);"),
+    ("Counters", "unsync_rm_wo_acc", "unsync/cache.rs", "remove_expired_wo", 0, "expr",
+     [("evicted_policy_weight", N), ("weight", N)], N, "nat", [],
+     r"(?<!mut )evicted_policy_weight = (?P<e>[^;]+);"),
+    ("Counters", "unsync_lru_count", "unsync/cache.rs", "evict_lru_entries", 0, "assign",
+     [("evicted_count", N)], N, "nat", [], r"(?<!\.)(?P<l>evicted_count) (?P<op>[-+])= (?P<e>[^;]+);"),
+    ("Counters", "unsync_lru_acc", "unsync/cache.rs", "evict_lru_entries", 0, "expr",
+     [("evicted_policy_weight", N), ("weight", N)], N, "nat", [],
+     r"(?<!mut )evicted_policy_weight = (?P<e>[^;]+);"),
+    ("Counters", "unsync_lru_ec", "unsync/cache.rs", "evict_lru_entries", 0, "assign",
+     [("entry_count", N), ("evicted_count", N)], N, "nat", [],
+     r"self\.(?P<l>entry_count) (?P<op>[-+])= (?P<e>[^;]+);"),
+    ("Counters", "unsync_lru_sub_arg", "unsync/cache.rs", "evict_lru_entries", 0, "expr",
+     [("evicted_policy_weight", N)], N, "nat", [],
+     r"self\.saturating_sub_from_total_weight\((?P<e>[^;]+)\);"),
+    ("Counters", "sync_counters_add_ec", "sync/base_cache.rs", "saturating_add", 0, "assign",
+     [("self_ec", N), ("entry_count", N)], N, "nat", [("self.entry_count", "self_ec")],
+     r"(?P<l>self_ec) (?P<op>[-+])= (?P<e>[^;]+);"),
+    ("Counters", "sync_counters_add_ws", "sync/base_cache.rs", "saturating_add", 0, "expr",
+     [("total", N), ("weight", N)], N, "nat", [], r"\*total = (?P<e>[^;]+);"),
+    ("Counters", "sync_counters_sub_ec", "sync/base_cache.rs", "saturating_sub", 0, "assign",
+     [("self_ec", N), ("entry_count", N)], N, "nat", [("self.entry_count", "self_ec")],
+     r"(?P<l>self_ec) (?P<op>[-+])= (?P<e>[^;]+);"),
+    ("Counters", "sync_counters_sub_ws", "sync/base_cache.rs", "saturating_sub", 0, "expr",
+     [("total", N), ("weight", N)], N, "nat", [], r"\*total = (?P<e>[^;]+);"),
+    ("Counters", "sync_update_sub_n", "sync/base_cache.rs", "handle_upsert", 0, "expr",
+     [("accounted", N), ("old_weight", N), ("new_weight", N)], N, "nat", [("entry.policy_weight()", "accounted")],
+     r"counters\.saturating_sub\((?P<e>[^,;]+), [^;]+\);"),
+    ("Counters", "sync_update_sub_w", "sync/base_cache.rs", "handle_upsert", 0, "expr",
+     [("accounted", N), ("old_weight", N), ("new_weight", N)], N, "nat", [("entry.policy_weight()", "accounted")],
+     r"counters\.saturating_sub\([^,;]+, (?P<e>[^;]+)\);"),
+    ("Counters", "sync_update_add_n", "sync/base_cache.rs", "handle_upsert", 0, "expr",
+     [("accounted", N), ("old_weight", N), ("new_weight", N)], N, "nat", [("entry.policy_weight()", "accounted")],
+     r"counters\.saturating_add\((?P<e>[^,;]+), [^;]+\);"),
+    ("Counters", "sync_update_add_w", "sync/base_cache.rs", "handle_upsert", 0, "expr",
+     [("accounted", N), ("old_weight", N), ("new_weight", N)], N, "nat", [("entry.policy_weight()", "accounted")],
+     r"counters\.saturating_add\([^,;]+, (?P<e>[^;]+)\);"),
+    ("Counters", "sync_update_stored", "sync/base_cache.rs", "handle_upsert", 0, "expr",
+     [("accounted", N), ("old_weight", N), ("new_weight", N)], N, "nat", [("entry.policy_weight()", "accounted")],
+     r"counters\.saturating_add\([^;]+\); entry\.entry_info\(\)\.set_policy_weight\((?P<e>[^;]+)\);"),
+    ("Counters", "sync_admit_add_n", "sync/base_cache.rs", "handle_admit", 0, "expr",
+     [("policy_weight", N)], N, "nat", [], r"counters\.saturating_add\((?P<e>[^,;]+), [^;]+\);"),
+    ("Counters", "sync_admit_add_w", "sync/base_cache.rs", "handle_admit", 0, "expr",
+     [("policy_weight", N)], N, "nat", [], r"counters\.saturating_add\([^,;]+, (?P<e>[^;]+)\);"),
+    ("Counters", "sync_admit_stored", "sync/base_cache.rs", "handle_admit", 0, "expr",
+     [("policy_weight", N)], N, "nat", [], r"entry\.entry_info\(\)\.set_policy_weight\((?P<e>[^;]+)\);"),
+    ("Counters", "sync_remove_sub_n", "sync/base_cache.rs", "handle_remove", 0, "expr",
+     [("accounted", N)], N, "nat", [("entry.policy_weight()", "accounted")],
+     r"counters\.saturating_sub\((?P<e>[^,;]+), [^;]+\);"),
+    ("Counters", "sync_remove_sub_w", "sync/base_cache.rs", "handle_remove", 0, "expr",
+     [("accounted", N)], N, "nat", [("entry.policy_weight()", "accounted")],
+     r"counters\.saturating_sub\([^,;]+, (?P<e>[^;]+)\);"),
+    ("Counters", "sync_remove_deq_sub_n", "sync/base_cache.rs", "handle_remove_with_deques", 0, "expr",
+     [("accounted", N)], N, "nat", [("entry.policy_weight()", "accounted")],
+     r"counters\.saturating_sub\((?P<e>[^,;]+), [^;]+\);"),
+    ("Counters", "sync_remove_deq_sub_w", "sync/base_cache.rs", "handle_remove_with_deques", 0, "expr",
+     [("accounted", N)], N, "nat", [("entry.policy_weight()", "accounted")],
+     r"counters\.saturating_sub\([^,;]+, (?P<e>[^;]+)\);"),
+    ("Counters", "sync_lru_acc", "sync/base_cache.rs", "evict_lru_entries", 0, "expr",
+     [("evicted", N), ("weight", N)], N, "nat", [], r"(?<!mut )evicted = (?P<e>[^;]+);"),
     # when expiry machinery is enabled at all
     ("Enable", "unsync_has_expiry", "unsync/cache.rs", "has_expiry", 0, "fn",
      [("ttl", O), ("tti", O)], B, "nat", [("self.time_to_live", "ttl"), ("self.time_to_idle", "tti")]),
@@ -889,7 +1025,9 @@ SITES = [
 ]
 
 
-EXTRA_IMPORTS = {"SketchBits": "import MiniMoka.SketchWord\n"}
+EXTRA_IMPORTS = {"SketchBits": "import MiniMoka.SketchWord\n",
+                 # operands a site does not use stay parameters (a changed site may start using them)
+                 "Counters": "\nset_option linter.unusedVariables false\n"}
 
 
 def translate_site(site):
@@ -898,11 +1036,13 @@ def translate_site(site):
     body = fn_body(read(rel), fn, nth)
     body = re.sub(r"//[^\n]*", "", body)
     text = substitute(body, subs)
-    if mode == "expr":
+    if mode in ("expr", "assign"):
         m = re.search(site[10], text)
         if not m:
             raise Unsupported(f"anchor not found in fn {fn}: {site[10]}")
-        ast = P(lex(m.group("e"))).expr()
+        # mode "assign": a compound assignment `l op= e;` is read as the new value `l op (e)`
+        etext = m.group("e") if mode == "expr" else f"{m.group('l')} {m.group('op')} ({m.group('e')})"
+        ast = P(lex(etext)).expr()
         # named intermediates: `let x = e;` statements of the function that precede the site are
         # transparent (best effort; the site's own parameters are never shadowed)
         env = {}
@@ -916,7 +1056,7 @@ def translate_site(site):
                 pass
         tr = Tr(dialect, env, src_text)
         lean = tr.expr(tr.simp(ast))
-        shown = m.group("e").strip()
+        shown = m.group("e").strip() if mode == "expr" else f"{m.group('l')} {m.group('op')}= {m.group('e').strip()};"
     else:
         stmts = P(lex(text)).block()
         lean = Tr(dialect, {}, src_text).block(stmts, None)
